@@ -27,7 +27,7 @@ var (
 		"radix tables transcribed into the checker: field 5x51 bits (uint64) or 10 limbs of 26/25 bits (uint32), scalar 5x52 bits (uint64) or 9x29 bits (uint32), selected from the type of Element.inner / unpackedScalar in the loaded configuration",
 	}
 	NotDecided = []string{
-		"(*Element).ToBytes: that the multiple of 19 added to limb 0 is 19*[h >= p] and that the discarded top carry equals it (the conditional subtraction of p); only the carry chain and the final packing are decided",
+		"(*Element).ToBytes: that the discarded top carry q' equals the quotient Q = [h >= p] added (times 19) to limb 0 is argued by a case split on Q from the decided facts (carry chain identity, packing, 2^255*Q + rho == h + 19 with 0 <= rho < 2^255, h + 19 < 2^256), not mechanised",
 		"(*unpackedScalar).SetBytesWide: the Montgomery multiplications and the final addition (only the two operands lo, hi handed to MontgomeryMul are decided)",
 		"NonAdjacentForm: the global statement that the returned digits sum to the scalar follows from the tabulated one-iteration invariant by induction over the iterations (positions strictly increase, every cell of the digit array is written at most once and only at the current position); that induction is argued, not mechanised",
 		"anything non-linear (field/scalar multiplication, inversion)",
